@@ -254,7 +254,7 @@ namespace trompeloeil {
     location loc)
   const
   {
-    if (is_first(matcher)) return;
+    if (cost(matcher) != ~0U) return;
     if (matchers.empty())
     {
       std::ostringstream os;
